@@ -312,6 +312,15 @@ func c17GenCase(rt *rapid.T, kind string, wantTrue bool) c17Case {
 		if !wantTrue {
 			r, cls = (r+1+int64(rapid.IntRange(0, int(n)-2).Draw(rt, "off")))%n, "wrong-power"
 		}
+		if r == n-1 {
+			// the exponentiation proof's convention (its prover rewrites intermediate values equal to
+			// mod-1, and its caller, the primality proof, commits to the literal -1): a result that is
+			// -1 modulo n is presented as the integer -1
+			r = -1
+			if wantTrue {
+				cls += "/result=-1"
+			}
+		}
 		s := newExpProofStructure("a", "b", "n", "r", bitlen)
 		comp := adapt("exp", &s,
 			func(s *expProofStructure, g zkproof.Group, l []*big.Int, b zkproof.BaseLookup, sc zkproof.SecretLookup) ([]*big.Int, expProofCommit) {
